@@ -182,6 +182,7 @@ def rand_tree(rng):
     c = {"op": "tbsdir", "files": files, "classes": classes}
     if rng.random() < 0.15:
         c["cli"] = True        # through the real `coca tbs -p dir` in a fresh process (coca_reporter/tbs.json, tdeps.json)
+        c["relroot"] = rng.random() < 0.5      # ... half of them run inside the tree with the relative root `.` (the command's default)
     return c
 
 
